@@ -226,6 +226,77 @@ class Script:
         if o == 'child_pid':
             w = self.obj(op['var'])
             return {'ret': getattr(getattr(w, '_child', None), 'pid', None)}
+        if o == 'poll_wait':
+            # the parent keeps asking until the worker is dead (each single call must come back)
+            w = self.obj(op['var'])
+            dl = time.time() + op.get('within', 10)
+            n = 0
+            while True:
+                n += 1
+                r = with_timeout(lambda: w.wait(op.get('step', 1.0)), op.get('step', 1.0) * 4 + 10)
+                if r is True:
+                    return {'ret': True, 'calls': n}
+                if r == 'HANG':
+                    return {'hang': True, 'calls': n}
+                if isinstance(r, str):
+                    return {'exc': r[7:], 'calls': n}
+                if time.time() > dl:
+                    return {'ret': False, 'calls': n}
+                time.sleep(0.02)
+        if o == 'server_stop':
+            srv = self.d.server
+            how = op['how']
+            t0 = time.time()
+            if how == 'terminate':
+                r = self.call(lambda: srv.terminate(), 30)
+            else:
+                os.kill(srv._child.pid, signal.SIGTERM)
+                r = {'ret': 'signalled'}
+            # how long until the server process is gone
+            dl = time.time() + op.get('within', 10)
+            while time.time() < dl and not pid_gone(srv._child.pid):
+                time.sleep(0.01)
+            r['server_gone'] = pid_gone(srv._child.pid)
+            r['gone_after'] = round(time.time() - t0, 3)
+            self.d.server = None
+            self.d.recorded = {}
+            return r
+        if o == 'tagged_wait_empty':
+            # wait (bounded) until no process carrying this history's run id is left, apart from multiprocessing's resource trackers
+            dl = time.time() + op.get('within', 10)
+            left = []
+            while True:
+                left = [(p, c) for (p, c) in tagged_pids(self.run_id) if 'resource_tracker' not in c]
+                if not left or time.time() > dl:
+                    break
+                time.sleep(0.05)
+            return {'ret': left}
+        if o == 'create_async':
+            import threading
+            box = {}
+            inner = dict(op, op='create')
+
+            def bg():
+                box['r'] = self.step(inner)
+            th = threading.Thread(target=bg, daemon=True)
+            th.start()
+            self.async_creates = getattr(self, 'async_creates', {})
+            self.async_creates[op['var']] = (th, box)
+            return {'ret': 'started'}
+        if o == 'join_create':
+            th, box = self.async_creates[op['var']]
+            th.join(op.get('timeout', 20))
+            if th.is_alive():
+                return {'hang': True}
+            return box.get('r', {'harness_error': 'no result'})
+        if o == 'wait_reached':
+            pth = os.path.join(self.land_dir, 'reached.%d' % op.get('n', 1))
+            dl = time.time() + op.get('timeout', 10)
+            while not os.path.exists(pth):
+                if time.time() > dl:
+                    return {'ret': False}
+                time.sleep(0.001)
+            return {'ret': True}
         if o == 'c11_fault':
             return self.c11_fault(op)
         if o == 'heal_server':
